@@ -186,6 +186,9 @@ type Options struct {
 	Args     []string // goderive flags
 	Timeout  time.Duration
 	RejectOK bool // do not treat a rejected subject as a violation
+	// CrashIsViolation: the harness process dying (unrecovered panic in a goroutine of the code under
+	// test, e.g. send on closed channel) or a data race report is a violation, described by the case log.
+	CrashIsViolation bool
 	// Post runs after a harness run without violations, before the case directory is removed;
 	// rerun executes the same harness binary again (same seed) with extra environment.
 	Post func(dir string, rerun func(extraEnv []string) gorun.Result)
@@ -262,6 +265,43 @@ func RunCase(c *pkit.Ctx, rt *rapid.T, s *Subject, o Options) *Outcome {
 		"-rapid.seed=" + strconv.FormatUint(seed, 10), "-rapid.nofailfile", "-rapid.shrinktime=20s"}
 	hr := gorun.Run(filepath.Join(dir, "h"), to, env, filepath.Join(dir, "h.test"), args...)
 	out.HarnessOut = hr.Stdout + hr.Stderr
+	if o.CrashIsViolation && !hr.TimedOut {
+		last := ""
+		for _, kv := range env {
+			if strings.HasPrefix(kv, "VERIF_CASELOG=") {
+				if b, err := os.ReadFile(strings.TrimPrefix(kv, "VERIF_CASELOG=")); err == nil {
+					last = strings.TrimSpace(string(b))
+				}
+			}
+		}
+		keepFiles := func() map[string]string {
+			keep := map[string]string{}
+			for k, val := range files {
+				if strings.HasPrefix(k, "vref/") || strings.HasPrefix(k, "vrep/") || k == "go.sum" {
+					continue
+				}
+				keep[k] = val
+			}
+			return keep
+		}
+		meta := map[string]any{"entry": "conc", "harness": o.Harness, "harness_seed": strconv.FormatUint(seed, 10), "checks": o.Checks, "go126": o.Go126, "race": o.Race}
+		if strings.Contains(out.HarnessOut, "WARNING: DATA RACE") {
+			i := strings.Index(out.HarnessOut, "WARNING: DATA RACE")
+			c.Fail(rt, map[string]string{"check": "data-race"}, "the race detector reported a data race\n last configuration: "+last+"\n"+pkit.Trunc(out.HarnessOut[i:], 2500), keepFiles(), meta)
+			return out
+		}
+		if _, err := os.Stat(repPath); err != nil && hr.Exit != 0 {
+			cls := "crash"
+			for _, l := range strings.Split(out.HarnessOut, "\n") {
+				if strings.HasPrefix(l, "panic: ") || strings.HasPrefix(l, "fatal error: ") {
+					cls = strings.TrimSpace(l)
+					break
+				}
+			}
+			c.Fail(rt, map[string]string{"check": "crash", "class": pkit.Trunc(cls, 100)}, "the harness process died: "+cls+"\n last configuration: "+last+"\n"+pkit.Trunc(out.HarnessOut, 2500), keepFiles(), meta)
+			return out
+		}
+	}
 	rep, err := vrep.Read(repPath)
 	if err != nil || hr.TimedOut {
 		c.Rep.Inconcl("harness produced no report (exit %d timeout %v): %s", hr.Exit, hr.TimedOut, pkit.Trunc(out.HarnessOut, 1500))
